@@ -27,7 +27,9 @@ def run(ctx):
     ctx.assumptions += [
         "z (the out-of-domain point) lies outside the trace domain and the LDE coset, and z*g too (probability <= 2^-30 per proof; protocol-inherent, an assumption of C01_stark_complete_partial, not searched for)",
         "no coin draw exhausts its documented limit of 1000 rejection-sampling attempts (outside the claim by the property text)",
-        "stage hypotheses of C01_stark_complete_partial, explicit premises to be discharged from other properties: merkle_complete (C10+C09), fri_complete (C15), interp_complete + coset_off_domain (C09/C16), transcript_agree cV = cP (C04); serialisation round trip (C12) is outside the algebraic model and covered by the falsifier only",
+        "C01_stark_complete has NO stage premise: merkle_complete, interp_complete, coset_off_domain, transcript_agree and fri_complete are discharged from C10_new_ok/C10_build_nodes_spec/C10_batch_complete, C09_interpolate_with_offset_spec/C09_get_inv_twiddles, C04_transcript_agree and C15_fri_complete by instantiating the model's stages with Model/Merkle.v, Model/FFT.v, Model/Transcript.v, Model/Fri.v (Proofs/StarkInst.v, Proofs/StarkFri.v); its premises are: field facts (two-adic roots rou with rou_sq/rou_1, 1+1<>0, offset<>0, offset^ce_size<>1, 2^(S kc) invertible, root_cond, primitive_root g n, itw = get_inv_twiddles), the well-formed FRI schedule (num_fri_layers = Some k, k*f < a, b <= a-k*f, a <= two-adicity, a <= 62, supported folding), shape (2 <= n = 2^(a-b), CE size = n*ce_b >= n*cols), draw_total (no coin draw exhausts its 1000 tries: outside the claim), validity of the trace, and the assumptions on z and the query points (<= 255 distinct LDE points, non-empty, different from z and z*g); serialisation round trip (C12) is outside the algebraic model and covered by the falsifier only",
+        "the Coq closure of Props/C01.v now includes other workers' files (Props/C04, C09, C10, C15, C16 and their Proofs): a change that breaks them breaks this check's coq build obligation",
+        "the coin values are an arbitrary function `sem` of the labelled symbolic challenge list of Model/Transcript.v (the same function on both sides): that the real DefaultRandomCoin is such a function (deterministic in the absorbed history and the draw index) is C19_coin_deterministic",
         "the algebraic model (Model/Stark.v part 2): its DEEP composition / composition-column segmentation / verifier recomputation are run against the real composer code (correspondence alg:deep, base fields only); the remaining glue of prove/verify (order of stages, transcript, Merkle, FRI) is tied by reading and by the end-to-end falsifier only",
         "Lagrange-kernel auxiliary columns / GKR proofs are not in the family and not in the model (covered only by the repository's own test)",
         "extension fields: the algebraic theorems hold for every FOps with FLaws (hence for the extensions once C08 provides their FLaws); E::from(B) embeddings are not modelled separately",
@@ -99,10 +101,14 @@ def run(ctx):
         "theorems (all fields/sizes/coins)": ["root_factor", "vanish_divisible", "domain_vanishing (x^n-1 = prod(x-g^i))", "quotient_is_poly",
                                               "air_quotient_exists", "ood_equation_holds", "deep_quotients_are_polys", "deep_degree_le",
                                               "deep_assert_lax_holds", "query_consistency", "comp_cols_fit", "comp_cols_le_ce",
-                                              "snapshot_cols_exact", "snapshot_loss_iff_exemptions_eq_degree"],
+                                              "snapshot_cols_exact", "snapshot_loss_iff_exemptions_eq_degree", "coset_vanishing",
+                                              "merkle_complete_inst (from C10)", "interp_complete_inst + coset_off_domain_inst (from C09)",
+                                              "transcript_agree_inst (from C04)", "transition_divisor_inst / assertion_divisor_inst (from C16)",
+                                              "fri_complete_inst (from C15_fri_complete + C10)", "stark_complete (capstone, ALL stages instantiated)"],
         "refuted (snapshot behaviour)": ["deep_assert_strict_refuted_general", "deep_degree_eq_refuted", "snapshot_cols_refuted"],
-        "hypotheses of the capstone": ["merkle_complete (C10+C09)", "fri_complete (C15)", "interp_complete (C09)", "coset_off_domain (C16/C09)",
-                                       "transcript_agree (C04)", "z outside domains (assumption)"],
+        "stage premises of C01_stark_complete": [],
+        "stage premise of C01_stark_complete_generic_fri (arbitrary FRI stage)": ["fri_complete"],
+        "other premises of C01_stark_complete": ["shape facts", "root-of-unity / twiddle facts of the field", "trace validity", "z outside domains, z and z*g non-zero, query points distinct LDE points (assumptions)"],
         "not modelled": ["serialisation round trip (C12; falsifier only)", "coin retry limit (C19; outside the claim)", "Lagrange kernel / GKR"],
     }
     ctx.trusted.insert(0, "Coq 8.16.1 kernel + vm_compute (no native_compute); Print Assumptions under every theorem")
